@@ -2,6 +2,7 @@
 //! predicted probabilities (clamped sigmoid of x·w) recomputed from first principles, f32.
 use super::*;
 use linfa::dataset::Pr;
+use ndarray::s;
 use linfa_ftrl::Ftrl;
 use rand_xoshiro::rand_core::SeedableRng;
 use rand_xoshiro::Xoshiro256Plus;
@@ -173,6 +174,17 @@ fn op_ftrl_fit(em: &mut Em, hp: [f64; 4], seed: u64, p: usize, batches: &[(Rows,
         }
         let (a, b) = (again.unwrap(), model.unwrap());
         ctx.require(a.z() == b.z() && a.n() == b.n(), "function_of_history", "ftrl_fit", || format!("replaying the same history from the same parameters ends in z {:?} n {:?} instead of z {:?} n {:?}", a.z(), a.n(), b.z(), b.n()));
+        // the same history through strided `DatasetView`s (every second row / all but the last column of a larger
+        // matrix, every second target): another entry point, same model up to the order of a <= 5-term sum
+        let mut viewed: Option<Ftrl<f64>> = None;
+        for (xs, ys) in batches {
+            let store = mk_store::<f64>(xs, p, 2);
+            let ystore: Array1<bool> = (0..2 * ys.len()).map(|i| if i % 2 == 0 { ys[i / 2] } else { !ys[i / 2] }).collect();
+            let ds = DatasetView::new(mk_view(&store, p, 2), ystore.slice(s![..;2]));
+            viewed = Some(params.fit_with(viewed.take(), &ds).expect("fit_with on a view"));
+        }
+        let v = viewed.unwrap();
+        ctx.require(near_v(&v.z().to_vec(), &b.z().to_vec(), 1e-12) && near_v(&v.n().to_vec(), &b.n().to_vec(), 1e-12), "function_of_history", "ftrl_fit:strided_view", || format!("the history fed through strided views ends in z {:?} n {:?} instead of z {:?} n {:?}", v.z(), v.n(), b.z(), b.n()));
         format!("ok {}", parts.join(" "))
     });
 }
